@@ -1,3 +1,4 @@
 //! Executable reference models written from the property statements.
 pub mod layout;
 pub mod mock;
+pub mod world;
